@@ -19,7 +19,7 @@ tvars == <<quiet, lastOff, owed, eaten, wpc, wAtChange, script, late, l, viol, j
 \* the test peer happens to read it; an enabling / starting message "begins" when the daemon turns to it, i.e. when it is
 \* sent with nothing before it in the queue or when the message before it has been answered.
 Off == {"disable", "stop", "reset"}
-On == {"enable", "start"}
+On == {"enable", "start", "restart"}
 
 RECURSIVE Join(_)
 Join(sq) == IF sq = <<>> THEN "" ELSE sq[1] \o (IF Len(sq) > 1 THEN "-" ELSE "") \o Join(Tail(sq))
